@@ -231,6 +231,13 @@ func runRadius(o *Out, r *rand.Rand, thorough bool, _ []string) {
 		if member != "none" && r.Intn(4) == 0 {
 			typ := []uint16{pingext.ClientInfo, pingext.BasicRadius, pingext.HistoryRadius}[r.Intn(3)]
 			rad := radiusBytes(r)
+			// a radius different from what is cached, so that "the cache now holds it" means this ping put it there
+			for {
+				if c, ok := nd.p.VerifRadiusCacheGet(peer.ID()); !ok || hex.EncodeToString(c) != hex.EncodeToString(rad) {
+					break
+				}
+				rad = radiusBytes(r)
+			}
 			var payload []byte
 			switch typ {
 			case pingext.ClientInfo:
